@@ -1,4 +1,671 @@
 package main
 
-// tryGoReplay turns a solver model into a Go test run against the real code. (Filled in later.)
-func tryGoReplay(g *Gen, vdir, pid string, r *Result, dir, base string) *goReplay { return nil }
+import (
+	"context"
+	"encoding/json"
+	"fmt"
+	"go/types"
+	"os"
+	"os/exec"
+	"path/filepath"
+	"sort"
+	"strconv"
+	"strings"
+	"time"
+
+	"golang.org/x/tools/go/ssa"
+)
+
+// Replay of a solver model against the real code.
+//
+// For a failed `ensures` / `nopanic` obligation with a model, the entry values of the parameters
+// (and of every heap location the symbolic execution actually read in the entry state) are
+// extracted from the model, turned into Go literals, and the real function is called on them by a
+// test injected with `go test -overlay` (nothing is written into /repo). The run "reproduces" when
+// the real results agree with the results the model predicts (nil-ness of errors and pointers,
+// integers, booleans) - i.e. the real code does produce the outputs that falsify the clause - or,
+// for nopanic obligations, when the real call panics.
+
+type sx struct {
+	atom string
+	list []*sx
+}
+
+func parseSx(s string) []*sx {
+	var stack [][]*sx
+	cur := []*sx{}
+	i := 0
+	for i < len(s) {
+		c := s[i]
+		switch {
+		case c == '(':
+			stack = append(stack, cur)
+			cur = []*sx{}
+			i++
+		case c == ')':
+			n := &sx{list: cur}
+			if n.list == nil {
+				n.list = []*sx{}
+			}
+			cur = stack[len(stack)-1]
+			stack = stack[:len(stack)-1]
+			cur = append(cur, n)
+			i++
+		case c == ' ' || c == '\n' || c == '\t' || c == '\r':
+			i++
+		case c == '|':
+			j := strings.IndexByte(s[i+1:], '|')
+			cur = append(cur, &sx{atom: s[i : i+j+2]})
+			i += j + 2
+		case c == '"':
+			j := i + 1
+			for j < len(s) && s[j] != '"' {
+				j++
+			}
+			cur = append(cur, &sx{atom: s[i : j+1]})
+			i = j + 1
+		default:
+			j := i
+			for j < len(s) && !strings.ContainsRune("() \n\t\r", rune(s[j])) {
+				j++
+			}
+			cur = append(cur, &sx{atom: s[i:j]})
+			i = j
+		}
+		if len(stack) == 0 && c == ')' {
+			// top-level form complete; keep going
+		}
+	}
+	return cur
+}
+
+func (x *sx) isList() bool { return x.list != nil }
+
+func (x *sx) intVal() (int64, bool) {
+	if !x.isList() {
+		n, err := strconv.ParseInt(x.atom, 10, 64)
+		if err != nil {
+			// may exceed int64 (uint64 values)
+			u, err2 := strconv.ParseUint(x.atom, 10, 64)
+			if err2 != nil {
+				return 0, false
+			}
+			return int64(u), true
+		}
+		return n, true
+	}
+	if len(x.list) == 2 && x.list[0].atom == "-" {
+		n, ok := x.list[1].intVal()
+		return -n, ok
+	}
+	return 0, false
+}
+
+func (x *sx) uintText() (string, bool) {
+	if !x.isList() {
+		if _, err := strconv.ParseUint(x.atom, 10, 64); err == nil {
+			return x.atom, true
+		}
+		return "", false
+	}
+	return "", false
+}
+
+type replayPlan struct {
+	fx      *FnExec
+	queries []string
+	vals    []*sx
+	imports map[string]string // path -> name
+	pkg     *types.Package
+	notes   []string
+	fail    string
+	nvars   int
+	pre     []string // statements before the call
+	seen    map[string]string // ref value -> variable (aliasing of pointers)
+}
+
+func (rp *replayPlan) q(t Term) int {
+	rp.queries = append(rp.queries, t.S)
+	return len(rp.queries) - 1
+}
+
+func (rp *replayPlan) qualifier(p *types.Package) string {
+	if p == rp.pkg {
+		return ""
+	}
+	if n, ok := rp.imports[p.Path()]; ok {
+		return n
+	}
+	name := p.Name()
+	for _, n := range rp.imports {
+		if n == name {
+			name = name + strconv.Itoa(len(rp.imports))
+		}
+	}
+	rp.imports[p.Path()] = name
+	return name
+}
+
+func (rp *replayPlan) typeStr(t types.Type) string {
+	return types.TypeString(t, rp.qualifier)
+}
+
+// valueNode describes how to build one Go value from model values.
+type valueNode struct {
+	kind   string // int bool string bytes ptr slice iface struct zero
+	typ    types.Type
+	q      []int // indices into queries
+	fields []fieldNode
+	elems  []*valueNode
+}
+
+type fieldNode struct {
+	name string
+	node *valueNode
+}
+
+const maxBytes = 48
+const maxElems = 4
+
+// plan builds the query plan for a value `t` of Go type `ty` in the entry state.
+func (rp *replayPlan) plan(t Term, ty types.Type, depth int) *valueNode {
+	fx := rp.fx
+	st := fx.entry
+	if depth <= 0 {
+		if _, isBasic := ty.Underlying().(*types.Basic); !isBasic {
+			return &valueNode{kind: "zero", typ: ty}
+		}
+	}
+	switch u := ty.Underlying().(type) {
+	case *types.Basic:
+		switch {
+		case u.Info()&types.IsBoolean != 0:
+			return &valueNode{kind: "bool", typ: ty, q: []int{rp.q(t)}}
+		case u.Info()&types.IsInteger != 0:
+			return &valueNode{kind: "int", typ: ty, q: []int{rp.q(t)}}
+		case u.Info()&types.IsString != 0:
+			fx.sc.Declare("strlen", "(declare-fun strlen (Int) Int)")
+			return &valueNode{kind: "string", typ: ty, q: []int{rp.q(t), rp.q(App("strlen", SInt, t))}}
+		}
+	case *types.Slice:
+		n := &valueNode{kind: "slice", typ: ty}
+		n.q = []int{rp.q(App("sl.base", SInt, t)), rp.q(App("sl.len", SInt, t))}
+		key := fx.tc.ElemKey(u.Elem())
+		if _, touched := st.epoch.vals[key]; !touched && depth > 0 {
+			// contents never read: any content of the right length will do
+			n.kind = "slice-len"
+			return n
+		}
+		arr := Select(fx.Heap(st, key), App("sl.base", SInt, t))
+		lim := maxElems
+		if eb, ok := u.Elem().Underlying().(*types.Basic); ok && eb.Kind() == types.Uint8 {
+			lim = maxBytes
+			n.kind = "bytes"
+			if fx.sc.preSeen["uf:bseq"] {
+				// the verification condition treats byte strings abstractly (equality only): give every
+				// abstract value of the model its own concrete content
+				n.kind = "bytes-abs"
+				n.q = append(n.q, rp.q(App("bseq", "BSeq", arr, App("sl.off", SInt, t), App("sl.len", SInt, t))))
+				return n
+			}
+		}
+		if depth <= 0 {
+			lim = 0
+		}
+		for i := 0; i < lim; i++ {
+			et := Select(arr, App("+", SInt, App("sl.off", SInt, t), IntLit(int64(i))))
+			n.elems = append(n.elems, rp.plan(et, u.Elem(), depth-1))
+		}
+		return n
+	case *types.Pointer:
+		n := &valueNode{kind: "ptr", typ: ty, q: []int{rp.q(t)}}
+		et := u.Elem()
+		if depth <= 0 {
+			return n
+		}
+		if isStruct(et) {
+			si := fx.tc.StructOf(et)
+			for _, f := range si.Fields {
+				key := fx.tc.FieldKey(si, f)
+				if _, touched := st.epoch.vals[key]; !touched {
+					continue
+				}
+				// unexported fields of foreign packages cannot be set from the test
+				fv := si.St.Field(f.Idx)
+				if !fv.Exported() && fv.Pkg() != rp.pkg {
+					rp.notes = append(rp.notes, fmt.Sprintf("field %s.%s is unexported in another package and stays zero", shortTypeName(et), f.Name))
+					continue
+				}
+				ft := Select(fx.Heap(st, key), t)
+				n.fields = append(n.fields, fieldNode{f.Name, rp.plan(ft, f.Type, depth-1)})
+			}
+			return n
+		}
+		if b, ok := et.Underlying().(*types.Basic); ok && (b.Info()&types.IsInteger != 0 || b.Info()&types.IsBoolean != 0) {
+			key := fx.tc.BoxKey(et)
+			if _, touched := st.epoch.vals[key]; touched {
+				n.elems = []*valueNode{rp.plan(Select(fx.Heap(st, key), t), et, depth-1)}
+			}
+			return n
+		}
+		return n
+	case *types.Struct:
+		n := &valueNode{kind: "struct", typ: ty}
+		si := fx.tc.StructOf(ty)
+		for _, f := range si.Fields {
+			fv := si.St.Field(f.Idx)
+			if !fv.Exported() && fv.Pkg() != rp.pkg {
+				continue
+			}
+			n.fields = append(n.fields, fieldNode{f.Name, rp.plan(si.Get(t, f), f.Type, depth-1)})
+		}
+		return n
+	case *types.Interface:
+		return &valueNode{kind: "iface", typ: ty, q: []int{rp.q(App("if.tag", SInt, t))}}
+	case *types.Map:
+		return &valueNode{kind: "map", typ: ty, q: []int{rp.q(t)}}
+	}
+	return &valueNode{kind: "zero", typ: ty}
+}
+
+// ifaceDefaults: usable stand-ins for interface-typed fields the model says are non-nil.
+var ifaceDefaults = map[string]string{
+	"github.com/canopy-network/canopy/lib.LoggerI": "lib.NewNullLogger()",
+}
+
+func (rp *replayPlan) newVar() string {
+	rp.nvars++
+	return fmt.Sprintf("v%d", rp.nvars)
+}
+
+// emit returns a Go expression for the node (emitting helper statements into rp.pre).
+func (rp *replayPlan) emit(n *valueNode) string {
+	ts := rp.typeStr(n.typ)
+	switch n.kind {
+	case "bool":
+		if rp.vals[n.q[0]].atom == "true" {
+			return "true"
+		}
+		return "false"
+	case "int":
+		v := rp.vals[n.q[0]]
+		if bits, signed, ok := bitSize(n.typ); ok && bits < 64 && !signed {
+			// values of never-constrained memory cells may be out of range in the model: any value
+			// is consistent, take it modulo the type's width
+			if i, ok2 := v.intVal(); ok2 {
+				m := int64(1) << bits
+				return fmt.Sprintf("%s(%d)", ts, ((i%m)+m)%m)
+			}
+		}
+		if txt, ok := v.uintText(); ok {
+			return fmt.Sprintf("%s(%s)", ts, txt)
+		}
+		if i, ok := v.intVal(); ok {
+			return fmt.Sprintf("%s(%d)", ts, i)
+		}
+		rp.fail = "non-numeric model value for an integer"
+		return "0"
+	case "string":
+		ln, _ := rp.vals[n.q[1]].intVal()
+		if ln < 0 || ln > 64 {
+			ln = 1
+		}
+		id, _ := rp.vals[n.q[0]].intVal()
+		if id == 0 {
+			return ts + `("")`
+		}
+		// distinct ids get distinct contents
+		s := fmt.Sprintf("s%d", id)
+		for int64(len(s)) < ln {
+			s += "x"
+		}
+		return fmt.Sprintf("%s(%q)", ts, s)
+	case "slice-len", "slice", "bytes":
+		base, _ := rp.vals[n.q[0]].intVal()
+		ln, _ := rp.vals[n.q[1]].intVal()
+		if base == 0 {
+			return ts + "(nil)"
+		}
+		if ln < 0 || ln > 4096 {
+			rp.fail = fmt.Sprintf("slice of length %d in the model", ln)
+			return ts + "(nil)"
+		}
+		if n.kind == "slice-len" {
+			return fmt.Sprintf("make(%s, %d)", ts, ln)
+		}
+		if n.kind == "bytes-abs" {
+			a := rp.vals[n.q[2]].atom
+			id := 0
+			if i := strings.LastIndex(a, "!"); i >= 0 {
+				id, _ = strconv.Atoi(a[i+1:])
+			}
+			var parts []string
+			for i := 0; i < int(ln); i++ {
+				parts = append(parts, strconv.Itoa((id*37+i*11+1+(id/256))%256))
+			}
+			return fmt.Sprintf("%s{%s}", ts, strings.Join(parts, ", "))
+		}
+		if int(ln) > len(n.elems) {
+			if n.kind == "bytes" {
+				// longer than we extract: the tail is zero
+				var parts []string
+				for _, e := range n.elems {
+					parts = append(parts, rp.emit(e))
+				}
+				v := rp.newVar()
+				rp.pre = append(rp.pre, fmt.Sprintf("%s := make(%s, %d)", v, ts, ln))
+				rp.pre = append(rp.pre, fmt.Sprintf("copy(%s, %s{%s})", v, ts, strings.Join(parts, ", ")))
+				return v
+			}
+			// more elements than extracted (deep or long structure): truncate; the comparison of
+			// results with the model decides whether the run is still the model's run
+			rp.notes = append(rp.notes, fmt.Sprintf("a %s of length %d was truncated to %d elements", ts, ln, len(n.elems)))
+			ln = int64(len(n.elems))
+		}
+		var parts []string
+		for i := 0; i < int(ln); i++ {
+			parts = append(parts, rp.emit(n.elems[i]))
+		}
+		return fmt.Sprintf("%s{%s}", ts, strings.Join(parts, ", "))
+	case "ptr":
+		ref, _ := rp.vals[n.q[0]].intVal()
+		if ref == 0 {
+			return "(" + ts + ")(nil)"
+		}
+		key := fmt.Sprintf("%s@%d", ts, ref)
+		if v, ok := rp.seen[key]; ok {
+			return v
+		}
+		et := n.typ.Underlying().(*types.Pointer).Elem()
+		v := rp.newVar()
+		rp.seen[key] = v
+		if isStruct(et) {
+			rp.pre = append(rp.pre, fmt.Sprintf("%s := &%s{}", v, rp.typeStr(et)))
+			for _, f := range n.fields {
+				rp.pre = append(rp.pre, fmt.Sprintf("%s.%s = %s", v, f.name, rp.emit(f.node)))
+			}
+			return v
+		}
+		rp.pre = append(rp.pre, fmt.Sprintf("%s := new(%s)", v, rp.typeStr(et)))
+		if len(n.elems) == 1 {
+			rp.pre = append(rp.pre, fmt.Sprintf("*%s = %s", v, rp.emit(n.elems[0])))
+		}
+		return v
+	case "struct":
+		var parts []string
+		for _, f := range n.fields {
+			parts = append(parts, fmt.Sprintf("%s: %s", f.name, rp.emit(f.node)))
+		}
+		return fmt.Sprintf("%s{%s}", ts, strings.Join(parts, ", "))
+	case "iface":
+		tag, _ := rp.vals[n.q[0]].intVal()
+		if tag == 0 {
+			return "nil"
+		}
+		if named, ok := types.Unalias(n.typ).(*types.Named); ok && named.Obj().Pkg() != nil {
+			full := named.Obj().Pkg().Path() + "." + named.Obj().Name()
+			if d, ok := ifaceDefaults[full]; ok {
+				rp.qualifier(named.Obj().Pkg())
+				if named.Obj().Pkg() == rp.pkg {
+					d = strings.TrimPrefix(d, named.Obj().Pkg().Name()+".")
+				}
+				return d
+			}
+		}
+		rp.fail = "non-nil value of interface type " + ts + " cannot be constructed"
+		return "nil"
+	case "map":
+		ref, _ := rp.vals[n.q[0]].intVal()
+		if ref == 0 {
+			return ts + "(nil)"
+		}
+		return "make(" + ts + ")"
+	}
+	return fmt.Sprintf("*new(%s)", ts)
+}
+
+func tryGoReplay(g *Gen, vdir, pid string, r *Result, dir, base string) *goReplay {
+	o := r.Obl
+	fx := o.Fx
+	if fx == nil || fx.fn == nil || (o.Kind != "ensures" && o.Kind != "nopanic") {
+		return nil
+	}
+	rep := &goReplay{}
+	var log strings.Builder
+	defer func() {
+		if rc := recover(); rc != nil {
+			fmt.Fprintf(&log, "replay generation failed: %v\n", rc)
+			rep.Log = log.String()
+		}
+	}()
+	fn := fx.fn
+	if fn.Pkg == nil || fn.Parent() != nil {
+		log.WriteString("closures are not replayed\n")
+		rep.Log = log.String()
+		return rep
+	}
+	rp := &replayPlan{fx: fx, imports: map[string]string{}, pkg: fn.Pkg.Pkg, seen: map[string]string{}}
+	var nodes []*valueNode
+	for _, p := range fn.Params {
+		nodes = append(nodes, rp.plan(fx.vals[p], p.Type(), 4))
+	}
+	// predicted results
+	var resNodes []*valueNode
+	nres := fn.Signature.Results().Len()
+	for i := 0; i < nres && i < len(fx.resultTerms); i++ {
+		rt := fn.Signature.Results().At(i).Type()
+		t := fx.resultTerms[i]
+		switch u := rt.Underlying().(type) {
+		case *types.Interface:
+			resNodes = append(resNodes, &valueNode{kind: "iface", typ: rt, q: []int{rp.q(App("if.tag", SInt, t))}})
+		case *types.Pointer, *types.Map:
+			resNodes = append(resNodes, &valueNode{kind: "ptr", typ: rt, q: []int{rp.q(t)}})
+		case *types.Slice:
+			resNodes = append(resNodes, &valueNode{kind: "slice-len", typ: rt, q: []int{rp.q(App("sl.base", SInt, t)), rp.q(App("sl.len", SInt, t))}})
+		case *types.Basic:
+			if u.Info()&types.IsBoolean != 0 {
+				resNodes = append(resNodes, &valueNode{kind: "bool", typ: rt, q: []int{rp.q(t)}})
+			} else if u.Info()&types.IsInteger != 0 {
+				resNodes = append(resNodes, &valueNode{kind: "int", typ: rt, q: []int{rp.q(t)}})
+			} else {
+				resNodes = append(resNodes, &valueNode{kind: "zero", typ: rt})
+			}
+		default:
+			resNodes = append(resNodes, &valueNode{kind: "zero", typ: rt})
+		}
+	}
+	if len(rp.queries) == 0 {
+		rp.queries = append(rp.queries, "true")
+	}
+	// ask the solver for all values at once
+	text := o.Script.RenderForValues(o.Prefix, o.Goal, rp.queries)
+	qf := filepath.Join(dir, base+".values.smt2")
+	os.WriteFile(qf, []byte(text), 0o644)
+	defer os.Remove(qf)
+	ans, out, _ := runSolver(context.Background(), solvers[0], 30, qf)
+	if ans != "sat" {
+		fmt.Fprintf(&log, "could not re-obtain the model for value extraction (%s)\n", ans)
+		rep.Log = log.String()
+		return rep
+	}
+	forms := parseSx(out[strings.Index(out, "\n")+1:])
+	if len(forms) == 0 || !forms[0].isList() || len(forms[0].list) != len(rp.queries) {
+		fmt.Fprintf(&log, "unexpected get-value output (%d forms)\n", len(forms))
+		rep.Log = log.String()
+		return rep
+	}
+	for _, pair := range forms[0].list {
+		if !pair.isList() || len(pair.list) != 2 {
+			log.WriteString("malformed get-value pair\n")
+			rep.Log = log.String()
+			return rep
+		}
+		rp.vals = append(rp.vals, pair.list[1])
+	}
+	// build the test
+	var args []string
+	for i, n := range nodes {
+		e := rp.emit(n)
+		v := fmt.Sprintf("arg%d", i)
+		rp.pre = append(rp.pre, fmt.Sprintf("%s := %s", v, e))
+		args = append(args, v)
+	}
+	if rp.fail != "" {
+		fmt.Fprintf(&log, "the model could not be turned into Go inputs: %s\n", rp.fail)
+		rep.Log = log.String()
+		return rep
+	}
+	var call string
+	variadic := fn.Signature.Variadic()
+	callArgs := args
+	if fn.Signature.Recv() != nil {
+		callArgs = args[1:]
+	}
+	if variadic && len(callArgs) > 0 {
+		callArgs = append(append([]string(nil), callArgs[:len(callArgs)-1]...), callArgs[len(callArgs)-1]+"...")
+	}
+	if fn.Signature.Recv() != nil {
+		call = fmt.Sprintf("%s.%s(%s)", args[0], fn.Name(), strings.Join(callArgs, ", "))
+	} else {
+		call = fmt.Sprintf("%s(%s)", fn.Name(), strings.Join(callArgs, ", "))
+	}
+	var rnames []string
+	for i := 0; i < nres; i++ {
+		rnames = append(rnames, fmt.Sprintf("r%d", i))
+	}
+	var body strings.Builder
+	fmt.Fprintf(&body, "package %s\n\nimport (\n\t\"fmt\"\n\t\"testing\"\n", fn.Pkg.Pkg.Name())
+	var ipaths []string
+	for p := range rp.imports {
+		ipaths = append(ipaths, p)
+	}
+	sort.Strings(ipaths)
+	for _, p := range ipaths {
+		fmt.Fprintf(&body, "\t%s %q\n", rp.imports[p], p)
+	}
+	body.WriteString(")\n\nfunc TestGovcReplay(t *testing.T) {\n\tdefer func() {\n\t\tif r := recover(); r != nil {\n\t\t\tfmt.Printf(\"GOVC-PANIC %v\\n\", r)\n\t\t}\n\t}()\n")
+	for _, l := range rp.pre {
+		body.WriteString("\t" + l + "\n")
+	}
+	if nres > 0 {
+		fmt.Fprintf(&body, "\t%s := %s\n", strings.Join(rnames, ", "), call)
+	} else {
+		fmt.Fprintf(&body, "\t%s\n", call)
+	}
+	for i := 0; i < nres; i++ {
+		rt := fn.Signature.Results().At(i).Type()
+		switch u := rt.Underlying().(type) {
+		case *types.Interface, *types.Pointer, *types.Map, *types.Slice:
+			fmt.Fprintf(&body, "\tfmt.Printf(\"GOVC-RESULT %d nil=%%v\\n\", r%d == nil)\n", i, i)
+		case *types.Basic:
+			if u.Info()&(types.IsBoolean|types.IsInteger) != 0 {
+				fmt.Fprintf(&body, "\tfmt.Printf(\"GOVC-RESULT %d val=%%v\\n\", r%d)\n", i, i)
+			} else {
+				fmt.Fprintf(&body, "\t_ = r%d\n", i)
+			}
+		default:
+			fmt.Fprintf(&body, "\t_ = r%d\n", i)
+		}
+	}
+	body.WriteString("\tfmt.Println(\"GOVC-DONE\")\n}\n")
+	testSrc := body.String()
+	testCopy := filepath.Join(dir, base+"_replay_test.go.txt")
+	os.WriteFile(testCopy, []byte(testSrc), 0o644)
+	// inject with -overlay
+	pkgDir := filepath.Join(g.repo, shortPkg(fn.Pkg.Pkg.Path()))
+	work, _ := os.MkdirTemp("", "govc-replay")
+	defer os.RemoveAll(work)
+	tf := filepath.Join(work, "zz_govc_replay_test.go")
+	os.WriteFile(tf, []byte(testSrc), 0o644)
+	ov, _ := json.Marshal(map[string]any{"Replace": map[string]string{filepath.Join(pkgDir, "zz_govc_replay_test.go"): tf}})
+	ovf := filepath.Join(work, "overlay.json")
+	os.WriteFile(ovf, ov, 0o644)
+	ctx, cancel := context.WithTimeout(context.Background(), 180*time.Second)
+	defer cancel()
+	cmd := exec.CommandContext(ctx, "go", "test", "-overlay", ovf, "-vet=off", "-count=1", "-timeout", "60s", "-run", "^TestGovcReplay$", "-v", ".")
+	cmd.Dir = pkgDir
+	env := []string{}
+	for _, e := range os.Environ() {
+		if strings.HasPrefix(e, "GOFLAGS=") || strings.HasPrefix(e, "GOTOOLCHAIN=") || strings.HasPrefix(e, "GOSUMDB=") || strings.HasPrefix(e, "PATH=") {
+			continue
+		}
+		env = append(env, e)
+	}
+	path := os.Getenv("PATH")
+	path = strings.ReplaceAll(path, "/opt/veriftools/go1.26.8/bin:", "")
+	env = append(env, "GOFLAGS=-mod=mod", "PATH="+path)
+	cmd.Env = env
+	outb, err := cmd.CombinedOutput()
+	outs := string(outb)
+	fmt.Fprintf(&log, "test: %s\ncommand: (cd %s && go test -overlay <ov> -vet=off -run ^TestGovcReplay$ .)\n", testCopy, pkgDir)
+	if len(rp.notes) > 0 {
+		fmt.Fprintf(&log, "notes: %s\n", strings.Join(rp.notes, "; "))
+	}
+	var keep []string
+	for _, l := range strings.Split(outs, "\n") {
+		if strings.HasPrefix(l, "GOVC-") || strings.Contains(l, "FAIL") || strings.Contains(l, "panic") || strings.Contains(l, "error") || strings.Contains(l, ".go:") {
+			keep = append(keep, l)
+		}
+	}
+	fmt.Fprintf(&log, "output:\n  %s\n", strings.Join(keep, "\n  "))
+	if err != nil && !strings.Contains(outs, "GOVC-") {
+		fmt.Fprintf(&log, "the replay test did not build or run: %v\n", err)
+		rep.Log = log.String()
+		return rep
+	}
+	panicked := strings.Contains(outs, "GOVC-PANIC")
+	if o.Kind == "nopanic" {
+		rep.Reproduced = panicked
+		fmt.Fprintf(&log, "real code panicked: %v\n", panicked)
+		rep.Log = log.String()
+		return rep
+	}
+	if panicked || !strings.Contains(outs, "GOVC-DONE") {
+		log.WriteString("the real call panicked or did not finish; the model's run is not reproduced\n")
+		rep.Log = log.String()
+		return rep
+	}
+	// compare predicted and real results
+	match := true
+	compared := 0
+	for i, n := range resNodes {
+		var want string
+		switch n.kind {
+		case "iface":
+			tag, _ := rp.vals[n.q[0]].intVal()
+			want = fmt.Sprintf("GOVC-RESULT %d nil=%v", i, tag == 0)
+		case "ptr":
+			ref, _ := rp.vals[n.q[0]].intVal()
+			want = fmt.Sprintf("GOVC-RESULT %d nil=%v", i, ref == 0)
+		case "slice-len":
+			b, _ := rp.vals[n.q[0]].intVal()
+			want = fmt.Sprintf("GOVC-RESULT %d nil=%v", i, b == 0)
+		case "bool":
+			want = fmt.Sprintf("GOVC-RESULT %d val=%s", i, rp.vals[n.q[0]].atom)
+		case "int":
+			if txt, ok := rp.vals[n.q[0]].uintText(); ok {
+				want = fmt.Sprintf("GOVC-RESULT %d val=%s", i, txt)
+			} else if iv, ok := rp.vals[n.q[0]].intVal(); ok {
+				want = fmt.Sprintf("GOVC-RESULT %d val=%d", i, iv)
+			}
+		}
+		if want == "" {
+			continue
+		}
+		compared++
+		if !strings.Contains(outs, want+"\n") {
+			match = false
+			fmt.Fprintf(&log, "model predicts %q; the real code printed otherwise\n", want)
+		} else {
+			fmt.Fprintf(&log, "real code agrees with the model: %s\n", want)
+		}
+	}
+	rep.Reproduced = match && compared > 0
+	if rep.Reproduced {
+		log.WriteString("REPRODUCED: on these inputs the real function returns exactly the results for which the clause is false\n")
+	}
+	rep.Log = log.String()
+	return rep
+}
+
+var _ = ssa.NaiveForm
